@@ -206,11 +206,17 @@ def run(idx, rep, tier):
                         key = ("unique-winner", fname, roles)
                         stmt = f"{fname}: tie between {' and '.join(roles)} (equal precedence, neither signature more specific)"
                     else:
-                        key = ("total", fname, tuple(a.cls for a in tup))
-                        stmt = f"{fname}({', '.join(a.cls for a in tup)}): no rule applies"
+                        opk = set(kinds)
+                        pat = tuple("<any operator kind>" if a.cls in opk else a.cls for a in tup)
+                        key = ("total", fname, pat)
+                        stmt = f"{fname}({', '.join(pat)}): no rule applies"
                     f = failures.setdefault(key, {"stmt": stmt, "tuples": [], "locs": set(), "confs": set(), "n": 0})
                     f["n"] += 1
                     f["confs"].add(cname)
+                    if key[0] == "total":
+                        f.setdefault("kinds", set()).update(a.cls for a in tup if a.cls in set(kinds))
+                        for r in rules:
+                            f["locs"].add(r.loc)
                     if len(f["tuples"]) < 8:
                         f["tuples"].append({"args": [repr(a) for a in tup], "free_conditions": {r.role: v for r, v in free.items()},
                                             "candidates": [f"{c[0].role} precedence={c[0].precedence}{'+0.5' if c[0].cond is not None else ''} @{c[0].loc}" for c in cands]})
@@ -220,9 +226,13 @@ def run(idx, rep, tier):
     n_bad = sum(f["n"] for f in failures.values())
     rep.count("resolve", proved=total - n_bad, nontrivial=nontrivial - n_bad if nontrivial >= n_bad else 0)
     for (rule, fname, detail), f in sorted(failures.items(), key=lambda kv: kv[0]):
-        construct = "~".join(detail) if rule != "total" else f"{fname}({','.join(detail)})"
-        rep.refuted(rule, construct, f["stmt"] + f" [{f['n']} tuple(s), configurations {sorted(f['confs'])}]",
-                    derivation={"tuples": f["tuples"]}, locs=sorted(f["locs"]))
+        construct = "~".join(detail) if rule != "total" else f"{fname}({','.join(detail)})".replace("<any operator kind>", "OP")
+        det = ""
+        if rule == "total":
+            ks = sorted(f.get("kinds", []))
+            det = ",".join(ks) if len(ks) <= 3 else f"{len(ks)}-kinds"
+        rep.refuted(rule, construct, f["stmt"] + f" [{f['n']} tuple(s), configurations {sorted(f['confs'])}]" + (f" kinds: {sorted(f.get('kinds', []))[:40]}" if rule == "total" else ""),
+                    detail=det, derivation={"tuples": f["tuples"]}, locs=sorted(f["locs"]))
     rep.floor("resolve", 3000 if tier == "quick" else 20000)
     # dead rules: informational
     for fname in fnames:
